@@ -142,6 +142,32 @@ func main() {
 			Run: func(devs []vrt.Dev) *explore.Exec { return run(sm, devs, false) }, Labeled: func(devs []vrt.Dev) *explore.Exec { return run(sm, devs, true) },
 			Post: sm.Post("c10/sync")})
 	}
+	// c10-encoding: peers that send every genuine signature in another byte encoding (trailing bytes, a coordinate
+	// plus the field modulus): what is stored must be the chain's bytes (any two honest nodes hold byte-identical
+	// beacons, the published randomness is the hash of these bytes)
+	for _, scID := range crypto.ListSchemes() {
+		k := bnet.NewKeys(scID, 3, 2, 3*time.Second, genesis)
+		f := bnet.NewKeys(scID, 3, 2, 3*time.Second, genesis)
+		var cs []bnet.SyncCase
+		for _, first := range []string{"trailing@0", "trailing@2", "xplusp@0", "xplusp@1"} {
+			for _, rest := range [][]string{nil, {"honest"}} {
+				for _, h0 := range []uint64{0, 2} {
+					cs = append(cs, bnet.SyncCase{H0: h0, Target: 0, Peers: append([]string{first}, rest...), Height: 5})
+				}
+			}
+		}
+		total += len(cs)
+		for _, follow := range []bool{false, true} {
+			be := "memdb"
+			if follow {
+				be = "bolt-trimmed"
+			}
+			sm := &bnet.SyncSim{Keys: k, Foreign: f, Backend: be, Cases: cs, Periods: 3, Follow: follow}
+			jobs = append(jobs, vlib.E1Job{Name: fmt.Sprintf("c10-encoding/%s/%s/follow=%v/cases=%d", scID, be, follow, len(cs)), Bound: 0,
+				Run: func(devs []vrt.Dev) *explore.Exec { return run(sm, devs, false) }, Labeled: func(devs []vrt.Dev) *explore.Exec { return run(sm, devs, true) },
+				Post: sm.Post("c10/sync")})
+		}
+	}
 	// c10-follow
 	fschemes := []string{crypto.DefaultSchemeID, crypto.UnchainedSchemeID}
 	fbackends := []string{"bolt-trimmed"}
